@@ -112,3 +112,21 @@ Lemma async_example :
   (map (fun x => (fst x, snd (snd x))) (q_sent (qrun h)), q_queue (qrun h)) =
   ([(0%N, ["a"]); (1%N, ["c"; "b"; "a"]); (1%N, ["b"; "a"]); (1%N, ["c"; "b"; "a"])], []).
 Proof. vm_compute. reflexivity. Qed.
+
+(** the synchronous schedule (every request is sent as soon as it is queued, no failure) is the instantaneous sending of
+    Model/Sys.v: the request reaches the wire of the sender's stream at once and the queue stays empty *)
+Lemma sync_send s t ws i : q_queue s = [] -> q_cur s = Some i ->
+  let s' := qstep (qstep s (QChange t ws)) QSend in
+  q_sent s' = (q_sent s ++ [(i, (t, ws))])%list /\ q_queue s' = [] /\ tget t (q_sub s') = Some ws.
+Proof.
+  intros Hq Hc. cbn [qstep q_queue q_cur q_sent q_sub]. rewrite Hq. cbn [app q_queue q_cur q_sent q_sub]. rewrite Hc.
+  repeat split; try reflexivity. rewrite tget_tset, rtype_eqb_refl. reflexivity.
+Qed.
+
+(** a failed Send loses the request but not the subscription: the next pick-up re-subscribes it *)
+Lemma lost_request_is_resubscribed s t ws j :
+  tget t (q_sub s) = Some ws -> q_pending s = Some j ->
+  last_sent t j (q_sent (qstep s (QPickup 0))) = Some ws.
+Proof.
+  intros H Hp. cbn [qstep]. rewrite Hp. cbn [q_sent]. rewrite last_sent_app. rewrite (last_sent_resub _ j t ws); [reflexivity|exact H].
+Qed.
